@@ -7,6 +7,7 @@ import (
 	"sync"
 	"time"
 
+	"github.com/StephenButtolph/canoto"
 	"github.com/ava-labs/avalanchego/utils/logging"
 	"github.com/ava-labs/avalanchego/utils/timer"
 	"go.uber.org/zap"
@@ -93,7 +94,9 @@ func (m *MessageBuffer) Send(msg []byte) error {
 		return ErrClosed
 	}
 
-	l := len(msg)
+	// Size the message as it is encoded inside a batch (wire tag + length prefix + bytes), so
+	// that an emitted batch never encodes to more than maxSize.
+	l := len(canoto__BatchMessage__Messages__tag) + int(canoto.SizeBytes(msg))
 	if l > m.maxSize {
 		return ErrMessageTooLarge
 	}
